@@ -1,13 +1,12 @@
 (* Props/C02.v — serialisation is deterministic, side-effect free and a fixed point.
    Determinism is immediate for a Gallina function; the content is the fixed point
    write(read(write s)) = write s, built from print idempotence column by column.
-   Missing for the full statement (see dedup_classes_refine_print_classes_partial): the relation between
-   duplicate removal's rounding and the printer is proved for the integer-type columns (all rationals);
-   for the 6/9-significant-digit columns (amplitudes, offsets, shape samples: kind 3) it is NOT proved here
-   (round_spec with its 1e-12 offset vs exact significant-digit rounding); it is sampled by the byte oracle.
+   The relation between duplicate removal's rounding and the printer is proved column by column
+   (dedup_classes_refine_print_classes): integer-type columns for all rationals, the 6/9-significant-digit columns
+   on the magnitude range of C15's round_spec_eq_fmt_sig (|x| >= 10^(dig-12); false below, see C15).
    Side-effect freedom of write() (deepcopy / aliasing) is checked by snapshots in harness/props/C02.py. *)
-From Coq Require Import List ZArith QArith Qabs.
-From PV Require Import Base.QUtil Base.Round Gen.GenFile Gen.GenDedup Model.File Proofs.FileProofs Proofs.FileDedup.
+From Coq Require Import List ZArith QArith Qabs Lia.
+From PV Require Import Base.QUtil Base.Round Proofs.RoundProofs Gen.GenFile Gen.GenDedup Model.File Proofs.FileProofs Proofs.FileDedup Proofs.RoundVsPrint.
 Import ListNotations.
 Open Scope Q_scope.
 
@@ -61,6 +60,37 @@ Theorem write_read_write_partial : forall sy s,
 Proof. exact FileProofs.write_read_write_partial. Qed.
 Print Assumptions write_read_write_partial.
 
+(* the same with hypotheses on the INPUT state only: the raster attributes are the values of the raster definitions
+   (distinct keys, as in a dict) and print exactly with 9 digits; the rasters are not 0; every RF delay, rounded to
+   the RF raster, prints exactly with 6 digits (below 1 s on a 1 us raster: KF-5 otherwise); ADC rows are complete.
+   What the reading system is does not matter. *)
+Theorem write_read_write : forall sy s,
+  rasters_in_defs s -> ~ f_braster s == 0 -> ~ f_rfraster s == 0 -> rf_delays_exact s -> adc_rows_full s ->
+  write_rows (read_rows sy (write_rows s)) = write_rows s.
+Proof. exact FileProofs.write_read_write. Qed.
+Print Assumptions write_read_write.
+
+Definition wrw_example : fstate :=
+  mkF [(key_rf_raster, [1 # 1000000]); (key_block_raster, [1 # 100000]); ([70; 79; 86]%Z, [1 # 4; 1 # 4; 3 # 1000])]
+      [[1; 3 # 1000; 1; 0; 0; 0; 0; 0]] [[1; 123456789 # 1000; 1; 2; 0; 100 # 1000000; 0; 1 # 3]]
+      [(tag_t, [1; 1234567 # 1; 1 # 10000; 1 # 1000; 1 # 10000; 0])] [[1; 256; 1 # 100000; 1 # 50000; 0; 0; 1 # 100000]] [] [] [] []
+      [[1; 2; 1; 1 # 3]; [2; 2; 0; 0]] (1 # 100000) (1 # 1000000) (1 # 100000) (1 # 10000000).
+Example write_read_write_hypotheses_hold :
+  rasters_in_defs wrw_example /\ ~ f_braster wrw_example == 0 /\ ~ f_rfraster wrw_example == 0 /\
+  rf_delays_exact wrw_example /\ adc_rows_full wrw_example.
+Proof.
+  split; [|split; [|split; [|split]]].
+  - constructor.
+    + cbn. repeat constructor; cbn; intuition discriminate.
+    + exists (1 # 100000). repeat split; vm_compute; reflexivity.
+    + exists (1 # 1000000). repeat split; vm_compute; reflexivity.
+  - intro H. discriminate H.
+  - intro H. discriminate H.
+  - unfold rf_delays_exact. cbn [f_rf wrw_example f_rfraster]. constructor; [|constructor].
+    cbn [row_exact sec_rf]. repeat split; intro R; try (vm_compute in R; discriminate R).
+  - unfold adc_rows_full. cbn. constructor; [cbn; lia|constructor].
+Qed.
+
 (* duplicate removal vs printing, column by column over the generated digit tuples and formats:
    1 = printed on exactly the grid duplicate removal rounds to, 2 = id column, 3 = same number of significant
    digits on both sides, 4 = RF delay (raster rounding + scaling in between).  A changed digit tuple or format
@@ -76,16 +106,55 @@ Proof. vm_compute. reflexivity. Qed.
 Example kinds_shape : (dedup_digits_shape =? shape_sample_fmt)%Z = true.
 Proof. vm_compute. reflexivity. Qed.
 
-Theorem dedup_classes_refine_print_classes_partial : forall rfr dig c x y,
+(* column by column: values identified by duplicate removal print identically.
+   kind 1 (integer us/ns/count columns): all rationals.  kind 2 (id columns): integers.  kind 3 (amplitudes,
+   offsets, shape samples): on the common magnitude range sig_range (|x| >= 10^(dig-12), C15 round_spec_eq_fmt_sig),
+   where the converse holds too.  kind 4 (RF delay): delays on the RF raster, same range.  Every column of every
+   deduplicated library has one of these kinds (examples kinds_* above: no 0).  Below the range the statement is
+   false (C15 dedup_classes_refine_print_classes_sig_refuted). *)
+Theorem dedup_classes_refine_print_classes : forall rfr dig c x y,
   ~ x == neg_zero -> ~ y == neg_zero -> round_spec dig x = round_spec dig y ->
   (refine_kind dig c = 1%Z -> wcol rfr c x = wcol rfr c y) /\
-  (refine_kind dig c = 2%Z -> is_int x -> is_int y -> wcol rfr c x = wcol rfr c y).
+  (refine_kind dig c = 2%Z -> is_int x -> is_int y -> wcol rfr c x = wcol rfr c y) /\
+  (refine_kind dig c = 3%Z -> sig_range dig x -> sig_range dig y -> wcol rfr c x = wcol rfr c y) /\
+  (refine_kind dig c = 4%Z -> forall j, c_mult c == p10 j -> ~ rfr == 0 ->
+     (exists N, x == inject_Z N * rfr) -> (exists N, y == inject_Z N * rfr) ->
+     sig_range dig x -> sig_range dig y -> wcol rfr c x = wcol rfr c y).
 Proof.
-  intros rfr dig c x y NX NY H. split.
+  intros rfr dig c x y NX NY H. split; [|split; [|split]].
   - intro K. exact (dedup_refines_print_grid rfr dig c x y K NX NY H).
   - intros K IX IY. exact (dedup_refines_print_ids rfr dig c x y K IX IY NX NY H).
+  - intros K RX RY. apply (dedup_classes_eq_print_classes_sig rfr dig c x y K RX RY). exact H.
+  - intros K j M NZ GX GY RX RY. exact (dedup_refines_print_raster rfr dig c j x y K M NZ GX GY RX RY H).
 Qed.
-Print Assumptions dedup_classes_refine_print_classes_partial.
+Print Assumptions dedup_classes_refine_print_classes.
+
+(* kind 3: duplicate removal identifies EXACTLY what prints identically (no merge on re-read, no lost merge) *)
+Theorem dedup_classes_eq_print_classes : forall rfr dig c x y,
+  refine_kind dig c = 3%Z -> sig_range dig x -> sig_range dig y ->
+  (round_spec dig x = round_spec dig y <-> wcol rfr c x = wcol rfr c y).
+Proof. exact dedup_classes_eq_print_classes_sig. Qed.
+Print Assumptions dedup_classes_eq_print_classes.
+
+(* shape samples are multiples of 1e-7 below 100 in magnitude: for those (and every other quantised value with
+   room for its decimals) duplicate removal's rounding IS the printer's rounding, down to 0 — the part of the
+   shape library that lies below sig_range 9 *)
+Theorem shape_sample_dedup_is_print : forall m x,
+  x == inject_Z m * pow10 (-7) -> Qabs x + log_offset <= pow10 2 -> Qeq_bool x neg_zero = false ->
+  round_spec dedup_digits_shape x = fmt_sig shape_sample_fmt x.
+Proof.
+  intros m x G U NN. change dedup_digits_shape with 9%Z. change shape_sample_fmt with 9%Z.
+  exact (quantised_dedup_is_print 9 7 m x ltac:(lia) ltac:(lia) G U NN).
+Qed.
+Print Assumptions shape_sample_dedup_is_print.
+
+Example rf_delay_mult_is_power_of_ten : c_mult (nth 5 sec_rf (1, 0%Z, 0%Z, 1)) == p10 6.
+Proof. vm_compute. reflexivity. Qed.
+Example sig_range_example : sig_range 6 (123456789 # 1000) /\ sig_range 6 0 /\ sig_range 9 (1 # 1000).
+Proof.
+  unfold sig_range. split; [right; split; apply Qle_bool_iff; vm_compute; reflexivity|]. split; [left; reflexivity|].
+  right; split; apply Qle_bool_iff; vm_compute; reflexivity.
+Qed.
 
 (* without the integrality hypothesis the id columns (kind 2) do not refine *)
 Theorem id_column_refuted : exists x y, round_spec (-6) x = round_spec (-6) y /\
